@@ -525,7 +525,7 @@ def _exec_genfile(run, rd):
 
     for fi in range(n_files):
         seed = plan["np_seed"] + 17 * fi
-        rel = f"set{fi}.npz"
+        rel = f"set{n_files - 1 - fi}.npz"  # a file list in non-alphabetical order: [set1.npz, set0.npz]
         if route in ("generate_dataset", "generate_env_data", "hand_vrp"):
             prob, n, dist, kw = _gd_args(plan)
             if route == "hand_vrp":
